@@ -88,6 +88,8 @@ func (a *Alias) LLString() string {
 		fmt.Fprintf(buf, " %s", a.UnnamedAddr)
 	}
 	buf.WriteString(" alias")
+	// Note: the type is cached by the first invocation of Type.
+	a.Type()
 	fmt.Fprintf(buf, " %s, ", a.Typ.ElemType)
 	switch expr := a.Aliasee.(type) {
 	case *constant.ExprAddrSpaceCast, *constant.ExprBitCast, *constant.ExprGetElementPtr, *constant.ExprIntToPtr:
